@@ -29,7 +29,7 @@ type diagTpl struct {
 	// contains the culprit and lies within the enclosing construct ⟦…⟧ (a diagnostic may underline the
 	// whole statement around its culprit; a range next to the culprit points at an innocent construct)
 	Rel  string
-	Hint string            // regexp selecting the hint (optional)
+	Hint string // regexp selecting the hint (optional)
 	// HintIn names the module holding the ‹…› markers (default: the culprit module)
 	HintIn  string
 	HintRel string // eq | within (default within)
